@@ -720,10 +720,11 @@ fn gen_s2k(ctx: &GenCtx) -> Vec<Value> {
         plans.push(json!({"t": p.range(1, 32), "p": p.range(1, 32), "m": m, "expect": "refuse"}));
     }
     for t in 33..=255usize {
-        plans.push(json!({"t": t, "p": 1, "m": p.range(3, 31), "expect": "refuse"}));
+        // (small m: if the refusal is ever lost, the derivation that then runs stays cheap and is reported as such)
+        plans.push(json!({"t": t, "p": 1, "m": p.range(3, 12), "expect": "refuse"}));
     }
     for pp in 33..=255usize {
-        plans.push(json!({"t": 1, "p": pp, "m": p.range(3, 31), "expect": "refuse"}));
+        plans.push(json!({"t": 1, "p": pp, "m": p.range(9, 13), "expect": "refuse"}));
     }
     for (t, pp) in [(0usize, 1usize), (1, 0), (0, 0)] {
         plans.push(json!({"t": t, "p": pp, "m": 10, "expect": "any-cheap"}));
